@@ -51,19 +51,23 @@ def main() -> int:
         name = f"{pid}-{x}{tag}"
         d = V / "refactors" / name
         d.mkdir(parents=True, exist_ok=True)
-        shutil.copy(patch, d / "patch.diff")
+        if patch.resolve() != (d / "patch.diff").resolve():
+            shutil.copy(patch, d / "patch.diff")
         if sh(f"git -C {REPO} status --porcelain -- src tests")[1].strip():
             print("refusing: worktree not clean")
             return 2
         rc, out = sh(f"git -C {REPO} apply {patch}")
         meta = {"property": pid, "variant": x, "source": "independent sub-agent asked for behaviour-preserving refactorings",
                 "diffstat": sh(f"git -C {REPO} diff --shortstat")[1].strip(), "checks": {}}
+        if "--own" in sys.argv and (d / "meta.json").exists():
+            # a re-run of the property's own check only: keep what is recorded about the other checks
+            meta["checks"] = json.loads((d / "meta.json").read_text()).get("checks", {})
         if rc != 0:
             meta["apply_error"] = out[-300:]
             print(name, "patch does not apply")
         else:
             try:
-                for cid in SHARED.get(pid, [pid]):
+                for cid in ([pid] if "--own" in sys.argv else SHARED.get(pid, [pid])):
                     rc, out = sh(f"cd {V} && /venv/bin/python -m vf.check {cid} --tier quick --scale {scale}")
                     verdict = [l for l in out.splitlines() if l.startswith(("VIOLATION", "HELD", "INCONCLUSIVE"))]
                     wit = [l for l in out.splitlines() if l.startswith("witness:")]
